@@ -136,6 +136,54 @@ func Quiesce() {
 // It models an environment watchdog such as "the manager cancels a sync that stopped progressing".
 func WhenStuck(f func()) { time.AfterFunc(300*time.Millisecond, f) }
 
+// ---- crash points ----
+// CrashAt(k) arms the k-th persistence point (k = 0: never). CrashPoint(name) is called by harness-level
+// store wrappers before each persistence operation (the engine's bbolt model has its own points too).
+// RunUntilCrash runs f and reports whether it was cut short by the armed crash point.
+type crashSig struct{ at string }
+
+var crashArmed, crashCount int
+var crashedAt string
+
+func CrashAt(k int) { crashArmed, crashCount = k, 0 }
+func CrashPoint(name string) {
+	crashCount++
+	if crashArmed > 0 && crashCount == crashArmed {
+		crashedAt = name
+		panic(crashSig{name})
+	}
+}
+func RunUntilCrash(f func()) (crashed bool) {
+	defer func() {
+		if r := recover(); r != nil {
+			if _, ok := r.(crashSig); ok {
+				crashed = true
+				crashArmed = 0
+				return
+			}
+			panic(r)
+		}
+	}()
+	f()
+	crashArmed = 0
+	return false
+}
+func CrashPointsSeen() int { return crashCount }
+func CrashedAt() string    { return crashedAt }
+
+// TempDir returns a scratch directory (a real temporary directory natively, a path in the engine's
+// file-system model otherwise).
+func TempDir(prefix string) string {
+	d, err := os.MkdirTemp("", "zz-"+prefix+"-")
+	if err != nil {
+		panic(err)
+	}
+	return d
+}
+
+// FileModes: (path, mode) of files opened through modelled APIs (engine only; empty natively).
+func FileModes() ([]string, []uint32) { return nil, nil }
+
 func Yield() { runtime.Gosched(); time.Sleep(time.Millisecond) }
 
 func NumBlocked() int    { return 0 }
